@@ -45,7 +45,7 @@ func c06bRun(t *testing.T, p c06bPlan) (res vfResult) {
 			return
 		}
 		statePath := filepath.Join(sd, "r.state")
-		r := NewRouter(statePath)
+		r := vfNewRouter(statePath)
 		w.adopt(r)
 		m := newVFModel()
 		for i, c := range p.Setup {
